@@ -10,15 +10,15 @@ import (
 
 func init() {
 	register("C03", &propSpec{
-		level: "other",
+		level:       "other",
 		explanation: "Reply routing decided structurally: every request literal handed to the connection carries an id obtained from the atomic counter in the same loop iteration and used for one packet only; frames are written by one function under the connection's write lock; a request is registered in the in-flight table (under its mutex) before it is sent and only sent if registration succeeded; the receiver routes a packet to the channel registered under the id decoded from that very packet and removes the entry; a result channel is taken from the pool per request and returned only after its result was consumed.",
-		run: runC03,
+		run:         runC03,
 		assumptions: []string{"peers answer with ids of outstanding requests (a foreign id ends the session by design)"},
 	})
 	register("C04", &propSpec{
-		level: "other",
+		level:       "other",
 		explanation: "Shape of the shutdown protocol, each item a necessary condition of 'every call fails, none hangs': the receiver goroutine broadcasts on every exit of recv and recv has no nil return; broadcastErr, under the table mutex, notifies every in-flight entry once, replaces it, stores the error and closes `closed` exactly once on every path; putChannel refuses registration after close with exactly one error result; send errors are delivered through the table (exactly-once by deletion); every result channel has capacity >= 1; recv closes the writer, Close waits for the receiver; in the four map/reduce transfers every goroutine's sends are cancellable or drained, work channels are closed by deferred calls, workers never leave their range loop, and `cancel` is closed at most once. Liveness in bounded time is not claimed.",
-		run: runC04,
+		run:         runC04,
 		assumptions: []string{"closing the transport's writer makes a blocked Read on the reader return (true for ssh sessions and pipes)", "the optional ssh session Wait hook returns"},
 	})
 }
